@@ -194,6 +194,75 @@ theorem full_W_solves {cov : Cov ℝ} {x : Mat ℝ n d} {y : Mat ℝ n c} {mu : 
             (choSolveM L (Mat.ofFn (n := n) (m := F.c) fun i k => F.el i k)).el t k)] at hentry
           simpa [choSolveAny, AnyMat.el] using hentry
 
+/-- DTC: the factor `W` solves the same inducing-point system as the weights, with the input factor
+    `Σ_L` (one row per cell: `sigma·I_n`, or the supplied `L·diag(std)`) as right-hand side:
+    `(L N Lᵀ + K_uf K_fu) W = K_uf Σ_L`. -/
+theorem dtc_W_solves {cov : Cov ℝ} {x : Mat ℝ n d} {xu : Mat ℝ m d} {y : Mat ℝ n c} {mu : ℝ}
+    {sigma : Sigma ℝ m} {jitter : ℝ} {ycf : Option (AnyMat ℝ)} {yIsMean : Bool} {s : CondState ℝ m d c}
+    (h : lmCondInit cov x xu y mu sigma jitter ycf yIsMean true = .ok s) :
+    ∃ (L : Mat ℝ m m) (N : Matrix (Fin m) (Fin m) ℝ) (F W : AnyMat ℝ),
+      C01.dtcNoise m sigma jitter ycf yIsMean = .ok N ∧ s.L = some L ∧ s.W = some W ∧ F.r = n ∧ W.c = F.c
+      ∧ (toM L * N * (toM L)ᵀ + toM (gram cov xu x) * (toM (gram cov xu x))ᵀ)
+            * toM (Mat.ofFn (n := m) (m := F.c) fun i k => W.el i k)
+          = toM (gram cov xu x) * toM (Mat.ofFn (n := n) (m := F.c) fun i k => F.el i k) := by
+  unfold lmCondInit at h
+  split at h
+  · cases h
+  · rename_i L hL
+    obtain ⟨Kuu', hKuu', hchol⟩ := getL_spec hL
+    simp only at h
+    split at h
+    · cases h
+    · rename_i LLB hLLB
+      obtain ⟨N, hN, hLLBeq, hNsym⟩ := C01.lmLLB_spec hLLB
+      split at h
+      · cases h
+      · rename_i LB hLB
+        have hcholB := chol?_spec hLB
+        simp only [Bool.not_true, Bool.false_eq_true, if_false] at h
+        split at h
+        · cases h
+        · rename_i W hW
+          have hs := (Except.ok.inj h).symm; subst hs
+          unfold lmUnc at hW
+          simp only at hW
+          split at hW
+          · cases hW
+          · rename_i F hF
+            split at hW
+            · cases hW
+            · rename_i AF hAF
+              have hWW := (Except.ok.inj hW).symm; subst hWW
+              unfold matMulAny at hAF
+              split at hAF
+              · cases hAF
+              · rename_i hFr
+                have hFr' : F.r = n := by simpa using hFr
+                have hAFeq := (Except.ok.inj hAF).symm; subst hAFeq
+                set A := solveLowerM L (gram cov xu x) with hA
+                have hLA : toM L * toM A = toM (gram cov xu x) := solveLowerM_mul hchol.lowerNonsing _
+                have hAAt : toM (matMulT A A) = toM A * (toM A)ᵀ := matMulT_toM A A
+                have hLLB' : toM LLB = toM A * (toM A)ᵀ + N := by rw [hLLBeq, hAAt]
+                let R : Mat ℝ n F.c := Mat.ofFn fun i k => F.el i k
+                have key := dtc_solve (p := F.c) hchol.lowerNonsing hLA hcholB hLLB' hNsym R
+                refine ⟨L, N, F, _, hN, rfl, rfl, hFr', rfl, ?_⟩
+                have hAF : (Mat.ofFn (n := m) (m := F.c) fun i k => nsum n fun t => A.el i t * F.el t k)
+                    = matMul A R := by
+                  apply mat_ext
+                  intro i k hi hk
+                  simp only [matMul, el_ofFn, hi, hk, and_self, if_true]
+                  apply nsum_congr
+                  intro t ht
+                  simp only [R, el_ofFn, ht, hk, and_self, if_true]
+                have hWeq : (Mat.ofFn (n := m) (m := F.c) fun i k =>
+                      (solveUpperTAny L (choSolveAny LB
+                        ⟨m, F.c, Mat.ofFn fun i k => nsum n fun t => A.el i t * F.el t k⟩)).el i k)
+                    = lmWeights L LB A R := by
+                  simp only [AnyMat.el] at hAF
+                  simp only [solveUpperTAny, choSolveAny, AnyMat.el, ofFn_el, lmWeights, hAF]
+                rw [hWeq]
+                exact key
+
 /-- Latent form: `W` solves `Lᵀ W = diag(std)` (the latent posterior standard deviations). -/
 theorem latent_W_solves {cov : Cov ℝ} {xu : Mat ℝ m d} {z : Mat ℝ m c} {mu : ℝ} {nObs : Nat}
     {L : Mat ℝ m m} (hL : LowerNonsing L) {sigma : Sigma ℝ m} {jitter : ℝ} {yIsMean : Bool}
